@@ -749,16 +749,81 @@ fn sweep_cases() -> Vec<(String, Vec<Call>)> {
             }
             out.push((format!("sweep/{name}/known"), c));
         }
-        let mut c = setup.clone();
-        c.extend(full_param_sweep(99, ID_EVENTS));
-        c.extend(tail.clone());
-        out.push((format!("sweep/{name}/id=../events"), c));
+        // the id that names the truth log: full sweep in every content state (the sidecar faults of the
+        // default thread make no difference to a call aimed at another id: one of them is enough)
+        if !name.starts_with("base_") || name == "base_caches_deleted_restart" {
+            let mut c = setup.clone();
+            c.extend(full_param_sweep(99, ID_EVENTS));
+            c.extend(tail.clone());
+            out.push((format!("sweep/{name}/id=../events"), c));
+        }
         if ["empty_store", "base", "inflight_job", "base_caches_deleted_restart", "frames_over_8k_and_over_256k_per_thread"].contains(&name) {
             let mut c = setup.clone();
             c.extend(id_sweep());
             c.extend(tail);
             out.push((format!("sweep/{name}/all_ids"), c));
         }
+    }
+    out.extend(product_cases());
+    out
+}
+
+/// the capabilities with the parameters they branch on, without the full product (used for the
+/// content x fault x restart product of states)
+fn core_param_sweep(th: usize) -> Vec<Call> {
+    let mut c = vec![];
+    for cp in [Cp::Replay, Cp::CursorStatus, Cp::SelectionStatus, Cp::Get] {
+        c.push(cap(cp, th, Params::default()));
+    }
+    for stride in [None, Some(1), Some(2), Some(3)] {
+        c.push(cap(Cp::CompactionStatus, th, Params { stride, ..Default::default() }));
+        c.push(cap(Cp::CutPoints, th, Params { stride, limit: Some(2), ..Default::default() }));
+        for max_new in [None, Some(2)] {
+            c.push(cap(Cp::Auto, th, Params { stride, max_new, dry_run: Some(true), ..Default::default() }));
+            for block in TRI {
+                c.push(cap(Cp::AutoSchedule, th, Params { stride, max_new, dry_run: Some(true), block, execute: Some(block != Some(false)), ..Default::default() }));
+            }
+        }
+    }
+    c.push(cap(Cp::Auto, th, Params { stride: Some(0), ..Default::default() }));
+    c.push(cap(Cp::AutoSchedule, th, Params { stride: Some(0), ..Default::default() }));
+    c
+}
+
+/// thread content x sidecar fault x restart: every combination, the fault (+ restart) applied again
+/// before every call.  (The faults other than Delete leave the derived caches in place while the
+/// full sidecar is unusable - the state the in-flight scan's fallback exists for.)
+fn product_cases() -> Vec<(String, Vec<Call>)> {
+    let states = sweep_states();
+    let content = |n: &str| states.iter().find(|s| s.0 == n).expect("state").1.clone();
+    let mut out = vec![];
+    for cname in ["base", "inflight_job", "backlog_larger_than_max_new", "all_cut_points_checkpointed", "job_ended_then_new_backlog"] {
+        let setup = content(cname);
+        // warm every derived cache first (a read of every kind), so that a fault of the full sidecar alone
+        // leaves the derived ones behind
+        let mut warm = setup.clone();
+        warm.extend(core_param_sweep(0));
+        let mut c = warm;
+        let mut label = vec![];
+        for fault in [None, Some(Fault::Delete), Some(Fault::TearTail), Some(Fault::Empty), Some(Fault::CutLine)] {
+            for restart in [false, true] {
+                if fault.is_none() && !restart {
+                    continue;
+                }
+                label.push(format!("{}{}", fault.map(|f| f.name()).unwrap_or_else(|| "nofault".into()), if restart { "+restart" } else { "" }));
+                for call in core_param_sweep(0) {
+                    if let Some(x) = fault {
+                        c.push(Call::Fault { x, th: 0 });
+                    }
+                    if restart {
+                        c.push(Call::Restart);
+                    }
+                    c.push(call);
+                }
+            }
+        }
+        c.push(cap(Cp::Append(4), 0, Params::default()));
+        out.push((format!("product/{cname}/x[{}]", label.join(",")), c));
     }
     out
 }
